@@ -240,6 +240,35 @@ def oracle_random(case, rec):
                          sequence=True)
     if case['pad'] == 0:
         check_envelope(emd, x, case['which'], case['method'], 0, case['par'], case['lpo'], case['mpo'], rec)
+    # one work buffer holding two records in turn (refilled in place between the requests): what is found in it the
+    # second time must be what a fresh array with the same contents gives - extrema and envelopes alike
+    xf = np.asarray(x, dtype=float)
+    if xf.size >= 3:
+        buf = np.array(xf, dtype=float)
+        other = xf[::-1] * -0.5 + 1.0
+        eo_ = {'pad_width': max(case['pad'], 1), 'parabolic_extrema': case['par']}
+        try:
+            for md in ('peaks', 'troughs'):
+                emd.sift.get_padded_extrema(buf, pad_width=eo_['pad_width'], mode=md, parabolic_extrema=case['par'])
+            emd.sift.interp_envelope(buf, mode='upper', interp_method=case['method'], extrema_opts=dict(eo_))
+            buf[...] = other
+            for md in ('peaks', 'troughs'):
+                a = emd.sift.get_padded_extrema(buf, pad_width=eo_['pad_width'], mode=md, parabolic_extrema=case['par'])
+                b = emd.sift.get_padded_extrema(other.copy(), pad_width=eo_['pad_width'], mode=md, parabolic_extrema=case['par'])
+                same = all((p_ is None and q_ is None) or (p_ is not None and q_ is not None and np.array_equal(p_, q_))
+                           for p_, q_ in zip(a, b))
+                if not same:
+                    raise Violation('C05/get_padded_extrema/stale-result-for-a-refilled-array/' + md,
+                                    'the same array object, overwritten in place, gives other extrema than a fresh array with the same contents')
+            for wh in ('upper', 'lower'):
+                a = emd.sift.interp_envelope(buf, mode=wh, interp_method=case['method'], extrema_opts=dict(eo_))
+                b = emd.sift.interp_envelope(other.copy(), mode=wh, interp_method=case['method'], extrema_opts=dict(eo_))
+                if (a is None) != (b is None) or (a is not None and not np.array_equal(a, b)):
+                    raise Violation('C05/interp_envelope/stale-result-for-a-refilled-array/' + wh, '')
+        except Violation:
+            raise
+        except Exception:
+            pass        # option combinations np.pad / scipy reject are judged by the checks above
     rec.cls('family=' + case['sig'].get('family', 'elementwise'))
     rec.cls('parabolic' if case['par'] else 'plain')
     rec.cls('custom-pad' if case['mpo'] or case['lpo'] else 'default-pad')
